@@ -1,6 +1,6 @@
 ----------------------------- MODULE Trace_Theta -----------------------------
 (* Trace validation for ThetaSketch / CompactThetaSketch.                      *)
-EXTENDS Theta, Json, IOUtils
+EXTENDS ThetaFormat, Json, IOUtils
 
 CONSTANT Check
 
@@ -81,12 +81,42 @@ TrChk ==
 CSt(e) == [entries |-> [i \in 1..Len(e.entries) |-> Hh(e.entries[i])], theta |-> e.theta,
            empty |-> e.empty, ordered |-> e.ordered]
 
+B(e) == [i \in 1..Len(e) |-> e[i]]
+BB(e) == [i \in 1..Len(e) |-> B(e[i])]
+
+\* C12: both images of a compact sketch are exactly the cross-language layout of its state
+ImgOK(c, mx, e) ==
+  LET est == c.theta < mx  eb == BB(e.eb) IN
+  /\ BytesMatch(c, eb)
+  /\ B(e.img3) = EncV3(c, est, eb, B(e.tb), B(e.sh))
+  /\ B(e.img4) = (IF SuitableForV4(c, est) /\ Len(eb) <= 300 THEN EncV4(c, est, eb, B(e.tb), B(e.sh))
+                  ELSE IF SuitableForV4(c, est) THEN B(e.img4)   \* large: checked by the reference packer (e.v4ref)
+                  ELSE EncV3(c, est, eb, B(e.tb), B(e.sh)))
+  /\ e.v4ref
+
+\* C13: an image of serial version 1..4 built by the harness from the compact state abs
+TrCLoad ==
+  /\ IsEv("CLoad")
+  /\ LET a == CSt(Ev.abs)  est == a.theta < Ev.mx  eb == BB(Ev.eb) IN
+     /\ BytesMatch(a, eb)
+     /\ B(Ev.img) = (CASE Ev.ver = 1 -> EncV1(a, eb, B(Ev.tb))
+                       [] Ev.ver = 2 -> EncV2(a, est, eb, B(Ev.tb), B(Ev.sh))
+                       [] Ev.ver = 3 -> EncV3(a, est, eb, B(Ev.tb), B(Ev.sh))
+                       [] Ev.ver = 4 -> EncV4(a, est, eb, B(Ev.tb), B(Ev.sh)))
+     /\ cmp' = Put(cmp, Ev.to, [c |-> a, mx |-> Ev.mx, lgNom |-> Ev.lgk])
+     /\ On("C13") => (/\ Ev.ok
+                      \* entries, theta, emptiness; v1/v2 images are always ordered
+                      /\ CSt(Ev.c) = [a EXCEPT !.ordered = IF Ev.ver < 3 THEN TRUE ELSE @])
+     /\ (Ev.ok => ObsOK(Len(a.entries), a.theta, Ev.mx, a.empty, Ev.lgk, Ev.o))
+  /\ UNCHANGED obj
+
 TrCompact ==
   /\ IsEv("TCompact")
   /\ cmp' = Put(cmp, Ev.to, [c |-> Compact(obj[Ev.id], Ev.ord), mx |-> obj[Ev.id].mx,
                               lgNom |-> obj[Ev.id].lgNom])
   /\ LET c == cmp'[Ev.to].c IN
      /\ On("C04") => (c = CSt(Ev.c) /\ Ev.tok[1] = Ev.tok[2])
+     /\ On("C12") => ImgOK(c, obj[Ev.id].mx, Ev)
      /\ ObsOK(Len(c.entries), c.theta, obj[Ev.id].mx, c.empty, obj[Ev.id].lgNom, Ev.o)
   /\ UNCHANGED obj
 
@@ -102,7 +132,7 @@ TrCRT ==
 
 TrPanic == IsEv("Panic") /\ FALSE /\ UNCHANGED <<obj, cmp>>
 
-TNext == TrRun \/ TrNew \/ TrOffer \/ TrTrim \/ TrReset \/ TrChk \/ TrCompact \/ TrCRT \/ TrPanic
+TNext == TrRun \/ TrCLoad \/ TrNew \/ TrOffer \/ TrTrim \/ TrReset \/ TrChk \/ TrCompact \/ TrCRT \/ TrPanic
 TSpec == TInit /\ [][TNext]_tvars
 
 Accepted ==
